@@ -179,9 +179,13 @@ package util
 //@   ensures[sat]   (value > max ==> result == max) && (!(value > max) && value < min ==> result == min)
 //@   modifies nothing
 
+//@ ghost var lastPidOut float64
+//@ pure clamp01(x float64) float64 = x > 1.0 ? 1.0 : (x < 0.0 ? 0.0 : x)
 //@ func (*PidLoop).Loop
 //@   props C01
-//@   modifies p.integral, p.error, p.lastTime
+//@   ghostret lastPidOut := result
+//@   ensures same(lastPidOut, result)
+//@   modifies p.integral, p.error, p.lastTime, lastPidOut
 
 //@ extern func errors.Is(err error, target error) (b bool)
 //@   effectfree
